@@ -431,6 +431,22 @@ func (r *Run) observe(e Ev, b0 map[string]fx.TraceView, q0 map[*types.Trace]bool
 			} else {
 				rec.inc, rec.late = cur, true
 				cur.late = append(cur.late, rec)
+				if cur.keep {
+					// the look-up CONSULTED the kept record: it is now the most recent one of its worker ("most recently
+					// recorded or consulted"), i.e. it counts against the capacity of every other kept record, and
+					// nothing counts against it any more
+					cur.others = map[string]bool{}
+					for oid, l := range r.incs {
+						if oid == id {
+							continue
+						}
+						for _, o := range l {
+							if o.decided && o.keep && o.worker == cur.worker {
+								o.others[id] = true
+							}
+						}
+					}
+				}
 				n := 0
 				for _, s := range newTx {
 					if s.SpanID == rec.id {
